@@ -11,6 +11,39 @@ def nontrivial(res):
     return bool(st and st[4] >= 2) or len(res.get("t", [])) >= 3
 
 
+CORPUS = os.path.join(os.path.dirname(os.path.dirname(os.path.abspath(__file__))), "corpus", "cases.jsonl")
+
+
+def load_corpus(prop):
+    import json
+    out = []
+    if os.path.exists(CORPUS):
+        for l in open(CORPUS):
+            if l.strip():
+                e = json.loads(l)
+                if prop in e.get("props", []):
+                    out.append(e)
+    return out
+
+
+def corpus_builder(entries):
+    cases, metas = [], {}
+    for k, e in enumerate(entries):
+        cid = "corpus%d" % k
+        line = " ".join(("id=" + cid) if t.startswith("id=") else t for t in e["case"].split())
+        kw = gen.parse_case(line)
+        meta = dict(e.get("meta") or {})
+        meta.setdefault("family", "corpus")
+        meta.setdefault("n", len(kw["prob"]["y0"]))
+        meta.setdefault("backward", kw["xend"] < kw["x0"])
+        meta.setdefault("tolmode", "mixed")
+        meta.setdefault("method", kw["method"])
+        meta["corpus"] = e["id"]
+        cases.append(line)
+        metas[cid] = (meta, kw)
+    return cases, metas
+
+
 def run(prop, prop_file, specs, oracles, trusted, rule, extra=None, level="proof"):
     """specs: list of dicts {profile, n_quick, n_thorough, full, isolated, methods}
     oracles: list of functions (meta, kw, res) -> [(key, msg)]
@@ -39,6 +72,14 @@ def run(prop, prop_file, specs, oracles, trusted, rule, extra=None, level="proof
     samples = []
     found_any = False
     diffs_all = []
+    specs = list(specs)
+    corpus = load_corpus(prop)
+    if corpus:
+        # regression corpus: inputs on which a property failed before a repair, one process each (appended, so that
+        # the generated specs keep their seeds)
+        specs.append({"builder": lambda sd, n, dfl, tag: corpus_builder(corpus), "n_quick": len(corpus),
+                         "n_thorough": len(corpus), "isolated": True, "timeout": 60, "corpus": True})
+        rep.cov["corpus_cases"] = [e["id"] for e in corpus]
     for si, spec in enumerate(specs):
         n = spec["n_thorough"] if tier == "thorough" else spec["n_quick"]
         prof = dict(sweep.PROFILES[spec["profile"]]) if isinstance(spec.get("profile"), str) else dict(spec.get("profile") or {})
